@@ -241,12 +241,7 @@ func newReference(g *genesis) *reference {
 	return &reference{g: g, sdb: sdb}
 }
 
-// finalise: Finalise(true); IntermediateRoot additionally pushes the pending storage into the (in-memory)
-// tries, which is not observable through any getter except ForEachStorage (go-ethereum iterates the trie).
-func (r *reference) finalise() {
-	r.sdb.Finalise(true)
-	r.sdb.IntermediateRoot(true)
-}
+func (r *reference) finalise() { r.sdb.Finalise(true) }
 
 func (r *reference) nextTx() {
 	r.finalise()
